@@ -109,6 +109,13 @@ func LoadProg(repo string, specDirs []string) (*Prog, error) {
 			}
 		}
 	}
+	defer func() {
+		for n, d := range p.con.Ghosts {
+			if d.IfaceKey {
+				ifaceKeyed[n] = true
+			}
+		}
+	}()
 	for _, dir := range specDirs {
 		files, _ := filepath.Glob(filepath.Join(dir, "*.gvs"))
 		sort.Strings(files)
